@@ -141,6 +141,15 @@ ObsOK(idx, o) ==
          /\ ToSet(o.terms) \subseteq Lexicon(idx, o.f)
          /\ {t \in Lexicon(idx, o.f) : \E d \in Live(idx) : Tf(idx, d, o.f, t) > 0} \subseteq ToSet(o.terms)
     [] o.kind = "fieldlen" -> o.n = FieldLen(idx, o.d, o.f)
+    [] o.kind = "totals" ->
+         \* the collection statistics of a field are the aggregates of the per-document lengths the reader reports
+         \* (asserted on an index without deletions: a deleted document still counts until it is merged away)
+         LET ls == {o.lens[i][2] : i \in DOMAIN o.lens}       \* (a document without the field has length 0)
+             sum == LET RECURSIVE S(_) S(i) == IF i = 0 THEN 0 ELSE S(i - 1) + o.lens[i][2] IN S(Len(o.lens))
+         IN o.nodel => /\ o.total = sum
+                       \* (whether documents without the field count towards the minimum is not specified:
+                       \* the on-disk codec counts them, the in-memory and plain-text codecs do not)
+                       /\ (ls # {} => o.maxlen = Max(ls) /\ (o.minlen = Min(ls) \/ (ls # {0} /\ o.minlen = Min(ls \ {0}))))
     [] o.kind = "stored" -> [f \in DOMAIN o.vals |-> o.vals[f]] = StoredOf(idx, o.d)
     [] o.kind = "column" -> o.v = ColOf(idx, o.d, o.f)
     [] o.kind = "vector" -> o.list = VectorOf(idx, o.d, o.f)
